@@ -193,6 +193,14 @@ def rule_b(ctx, cone=None, rid="C03.b", floor=1):
         for comp in cfg.cycles(m):
             nloops += 1
             k = _loop_kind(F, m, comp)
+            if k is None:
+                # the CAS / iterator step may sit in a private helper called from the loop: look at the frame's normal form, at the loops
+                # that contain code of this very frame
+                from .nf import NF
+                nm_ = NF(F, m)
+                ks = [_loop_kind(F, nm_, c2) for c2 in cfg.cycles(nm_) if any(nm_.blocks[b_].get("from") is None for b_ in c2)]
+                if ks and all(x is not None for x in ks):
+                    k = ks[0]
             key = "loop:%s#%d" % (keyname(m.name), len(comp))
             where = m.term(min(comp))["sp"]
             if k is None:
